@@ -201,7 +201,7 @@ HARNESSES += [
     H("b_skip_string_w29", "main", ["C02", "C14", "C09", "C01"], ["Parser::skip_string (32-byte block path + tail)", "Parser::skip_escaped_chars", "u8x32::{eq,le,bitmask}"],
       "38-byte buffer: neutral 'x' except a 6-byte symbolic window at 29..35 (across the block edge) and a closing quote at 36",
       stubs=[CUT_SYNTAX, MAXEPU8], timeout=1500, exp_gb=8, mem_gb=20,
-      unwindset=[("::skip_string", None, 10), ("ref_string_end", None, 40), ("ref_has_backslash", None, 40), ("windowed", None, 8), ("skip_escaped_chars", None, 6)]),
+      unwindset=[("::skip_string", -1, 10), ("ref_string_end", None, 40), ("ref_has_backslash", None, 40), ("windowed", None, 8), ("skip_escaped_chars", None, 6)]),
 ]
 
 HARNESSES += [
@@ -212,11 +212,11 @@ HARNESSES += [
     H("b_skip_string_unchecked_tail_w27", "main", ["C10", "C12", "C13", "C01"], ["Parser::skip_string_unchecked (block loop, then the scalar tail with the escape carry)"],
       "40-byte buffer: neutral 'x' except a 10-byte symbolic window at 27..37 and a closing quote at 38; well-formed literals only",
       stubs=[CUT_SYNTAX], timeout=1500, exp_gb=6,
-      unwindset=[("ref_string_end", None, 50), ("ref_has_backslash", None, 50), ("windowed", None, 12), ("::skip_string_unchecked", None, 16)]),
+      unwindset=[("ref_string_end", None, 50), ("ref_has_backslash", None, 50), ("windowed", None, 12), ("::skip_string_unchecked", -1, 16)]),
     H("b_skip_number_w30", "main", ["C02", "C14", "C08", "C01"], ["Parser::do_skip_number (32-byte block path, is_float carry, exponent inside a block)", "i8x32::{gt,bitmask}"],
       "66-byte buffer of digits with a 6-byte symbolic window at 30..36 (lanes 28..31 of the first chunk and 0..1 of the next) and a comma at 44",
       stubs=[CUT_SYNTAX], timeout=1800, exp_gb=8, mem_gb=20,
-      unwindset=[("ref_number_end", None, 48), ("windowed", None, 8), ("::do_skip_number", None, 14), ("::skip_exponent", None, 16)]),
+      unwindset=[("ref_number_end", None, 48), ("windowed", None, 8), ("::do_skip_number", -1, 14), ("::do_skip_number", -2, 14), ("::skip_exponent", None, 16)]),
 ]
 
 HARNESSES += [
@@ -250,6 +250,20 @@ HARNESSES += [
       stubs=[CUT_SYNTAX, M_WS, M_DOMSTR, "contract models: parse_number_inplace / parse_literal_visit -> recogniser + leaf event; parse_object -> abstract E + value event"], timeout=1200),
     H("m_dom_object_n8", "main", ["C02", "C03"], ["Parser::parse_object (in-place DOM driver)", "Parser::parse_object_clo"],
       "every buffer of length <= 8 after '{' x every E; whole event stream compared", stubs=[CUT_SYNTAX, M_WS, M_DOMSTR, M_DOMVAL], timeout=1200),
+]
+
+CUT_DROP = "cut: core::mem::drop -> forget (the recursive drop glue of Parsed/OwnedLazyValue exhausts memory; which decoding is returned/cached is decided, that a box is freed is not)"
+HARNESSES += [
+    H("e_owned_load", "main", ["C18", "C01"], ["lazyvalue::owned::LazyRaw::load", "LazyRaw::clone_lazyraw"],
+      "one shared LazyRaw: 2 loads by the reader under test + clone, the other reader's publish at any atomic step", native_replay=False,
+      stubs=[ATOMIC, "cut: Parser::load_owned_lazyvalue -> fixed decoding Bool(true)", "cut: Read::from -> empty reader (unused by the cut parser)", CUT_DROP],
+      timeout=1500, mem_gb=28, exp_gb=10),
+    H("e_owned_load_then_parse", "main", ["C13", "C18", "C01"], ["LazyRaw::load", "LazyRaw::parse"],
+      "sequence: optional shared read that fills the cache, then the mutable take-out; the cache must not keep the pointer it handed out", native_replay=False,
+      stubs=[ATOMIC, "cut: Parser::load_owned_lazyvalue -> fixed decoding Bool(true)", "cut: Read::from -> empty reader", CUT_DROP], timeout=1500, mem_gb=28, exp_gb=10),
+    H("u_owned_mut_probe_keeps_raw", "main", ["C13"], ["OwnedLazyValue::as_array_mut", "OwnedLazyValue::as_object_mut", "LazyRaw::get_type"],
+      "four concrete raw texts (number, escaped string, {}, []) probed for the other container kind",
+      stubs=["cut: Parser::load_owned_lazyvalue -> fixed decoding", "cut: Read::from -> empty reader", CUT_DROP], timeout=1500, mem_gb=28, exp_gb=10),
 ]
 
 CUT_PF = "cut: sonic_number::parse_float -> nondeterministic Ok(Float)/Err(FloatMustBeFinite) (classification and index only)"
